@@ -10,6 +10,7 @@ proof or tie broke), verdict.  Exit 0 = held, 1 = VIOLATION line printed, 2 = ma
 import fcntl, hashlib, json, os, re, shutil, subprocess, sys, time
 
 V = os.path.dirname(os.path.dirname(os.path.abspath(__file__)))
+REPO = os.environ.get('VERIF_REPO', '/repo')
 LEAN = V + '/lean'
 HARNESS = V + '/harness'
 WORK = '/dev/shm/ructe-verif-work' if os.path.isdir('/dev/shm') else V + '/work'
@@ -17,7 +18,7 @@ sys.path.insert(0, V + '/tools')
 import plans  # noqa: E402
 
 ALLOWED_AXIOMS = {'propext', 'Classical.choice', 'Quot.sound'}
-ENV = dict(os.environ, CARGO_NET_OFFLINE='true', VERIF_ROOT=V)
+ENV = dict(os.environ, CARGO_NET_OFFLINE='true', VERIF_ROOT=V, VERIF_REPO=REPO)
 
 
 def log(*a):
@@ -101,7 +102,7 @@ def proof_stage(plan, ev):
 def build_harness(features):
     tdir = 'target' + ('-' + '-'.join(features) if features else '')
     with Lock('cargo'):
-        shutil.copy('/repo/Cargo.lock', HARNESS + '/Cargo.lock') if os.path.exists('/repo/Cargo.lock') else None
+        shutil.copy(REPO + '/Cargo.lock', HARNESS + '/Cargo.lock') if os.path.exists(REPO + '/Cargo.lock') else None
         cmd = ['cargo', 'build', '--release', '--offline', '--target-dir', tdir]
         if features:
             cmd += ['--features', ','.join(features)]
@@ -234,7 +235,7 @@ def main():
     if binary is None:
         # does ructe itself still build? if so only the hook module no longer fits the code: the tie
         # to the source is broken and the property is no longer shown to hold
-        plain = run(['cargo', 'build', '--offline', '--manifest-path', '/repo/Cargo.toml', '--target-dir', HARNESS + '/target-plain'], cwd='/repo')
+        plain = run(['cargo', 'build', '--offline', '--manifest-path', REPO + '/Cargo.toml', '--target-dir', HARNESS + '/target-plain'], cwd=REPO)
         if plain.returncode != 0:
             log('/repo does not build:\n' + plain.stdout[-3000:])
             return 2
